@@ -48,7 +48,7 @@ class Recorder:
         self.explored_seen = bool(sampler.explored)
         self.full = False          # full state strings (debugging / replay) or compact fingerprints
         self.cur_rounds = None
-        self.drawn = {}            # id(bound object) -> number of rows its sample() returned to sample_shell (independent count)
+        self.drawn = {}            # model bound id -> number of rows its sample() returned to sample_shell (independent count)
         self._install()
 
     # ---- ids
@@ -101,7 +101,8 @@ class Recorder:
                 res = orig_sample_shell(index, shell_t)
             finally:
                 self_.bounds[index] = real
-            rec.drawn[id(real)] = rec.drawn.get(id(real), 0) + sum(len(x) for x in log)
+            k = rec.bid(real)        # not id(real): ids of dead objects of an earlier segment are reused
+            rec.drawn[k] = rec.drawn.get(k, 0) + sum(len(x) for x in log)
             points = res[0]
             idx_t = list(map(int, res[2])) if len(res) > 2 else []
             rounds = []
@@ -187,7 +188,6 @@ class Recorder:
                     if n_diff > 0:
                         self.notes.append('resume: contains() of bound %d differs on %d of %d recorded rows' % (i, n_diff, len(rows)))
                 self.bounds[ids[i]] = b
-                self.drawn[id(b)] = self.drawn.get(id(old.bounds[i]), 0)
         self.s, self.lk = s2, lk2
         self._install()
         self.ops.append('R')
